@@ -198,6 +198,27 @@ def collect_then_wait():
     }}
 
 
+def waiter_shared_id():
+    """two invocations of p (nw=2) wait under ONE waiter id: the waiter_event is still published once for that id."""
+    return {"timeout": None, "steps": {
+        "x": {"accepts": ["Start"], "nw": 1, "body": [{"op": "send", "ty": "A", "n": 2}, G, {"op": "none"}]},
+        "p": {"accepts": ["A"], "nw": 2, "returns": ["Stop"],
+              "body": [G, {"op": "wait", "ty": "Resp", "wid": "wp", "timeout": None, "wev": True}, {"op": "none"}]},
+    }}
+
+
+def resumable_handlers():
+    """b (one worker) always fails; its handler re-emits the input (max_recoveries=2): handler-emitted events carrying a
+    recovery count sit in b's queue behind the other lineage."""
+    return {"timeout": None, "steps": {
+        "a": {"accepts": ["Start"], "nw": 1, "body": [G, {"op": "send", "ty": "A", "n": 2}, {"op": "none"}]},
+        "b": {"accepts": ["A"], "nw": 1, "retry": {"max": 1, "wait": ["fixed", 0]}, "returns": ["Stop"],
+              "body": [G, {"op": "fail", "until": 99}, {"op": "none"}]},
+        "hs": {"accepts": ["Failed"], "role": "catch_error", "for_steps": ["b"], "max_rec": 2,
+               "body": [G, {"op": "ret", "ty": "A"}]},
+    }}
+
+
 def family(name, quick=True):
     """Lists of (label, prog, ext_menu) per property family."""
     out = []
@@ -233,6 +254,7 @@ def family(name, quick=True):
         out.append(("waiter(timeout=5)", waiter(5), [("Resp", None)]))
         out.append(("waiter(reqs k=1)", waiter(None, {"k": 1}), [("Resp", None), ("Resp1", None)]))
         out.append(("waiter2", waiter2(7), [("Resp", None), ("Resp1", None)]))
+        out.append(("waiter_shared_id", waiter_shared_id(), [("Resp", None)]))
         if not quick:
             out.append(("waiter(timeout=5,raise)", waiter(5, on_timeout="raise"), [("Resp", None)]))
             out.append(("waiter(nw=2)", waiter(3, nw=2), [("Resp", None)]))
@@ -293,6 +315,7 @@ def family(name, quick=True):
         out.append(("resumable(1,2,2,99)", resumable(1, 2, 2, 99), []))
         out.append(("resumable(2,3,3,2,delay=2)", resumable(2, 3, 3, 2, 2), []))
         out.append(("resumable_wait", resumable_wait(), [("Resp1", None), ("Resp", None)]))
+        out.append(("resumable_handlers", resumable_handlers(), []))
     elif name == "waits":
         out.append(("chain(5,1)", pipeline(retry_max=4, wait=["chain", [5, 1]], fail_until=99), []))
         out.append(("chain(1,4,2)", pipeline(retry_max=5, wait=["chain", [1, 4, 2]], fail_until=99), []))
